@@ -11,6 +11,7 @@ import rules_sched as RS
 import rules_subject as RJ
 import rules_x as RX
 import rules_count as RCNT
+import rules_opsem as ROPS
 
 COMBINATORS = ("merge", "flat_map", "concat", "zip", "combine_latest", "amb", "take_until",
                "skip_until", "sample", "switch_on_next", "sequence_equal")
@@ -91,6 +92,7 @@ def rules_for(pid):
             ("K-fresh-state", lambda c: RK.k_fresh_state(c.P, c.E, lambda root: not _is_combinator_root(root)), 18),
             ("D-compose", lambda c: RO.d_compose(c.P, c.E), 3),
             ("COUNT", lambda c: RCNT.count_rule(c.P, c.E, c.H), 6),
+            ("OPSEM", lambda c: ROPS.opsem_rule(c.P, c.E, c.H), 8),
         ],
         "C03": [
             ("H-register-first", lambda c: RH.h_register_first(c.P, c.E, c.H), 9),
@@ -242,6 +244,9 @@ EXPLANATION = {
            "skip_last / buffer_with_count / window_with_count the item handler is summarised symbolically into "
            "guarded transitions over (counter or queue length, count) and explored for every count 0..9 and item "
            "index 1..14 against the operator's table (which indices are emitted, held back, complete).  "
+           "Control-level semantics (OPSEM): filter / take_while / skip_while / default_if_empty / ignore_elements / "
+           "distinct_until_changed / count / contains / map / tap are explored in lock-step with a reference machine over "
+           "every sequence of predicate / equality outcomes up to 5 items and both endings.  "
            "Item values, predicates and accumulators are NOT decided (they quantify over runtime values).",
     "C03": "Structural clauses of the combinators: all upstream observers of one activation are registered "
            "before any upstream is subscribed (H-register-first), and every complete/error handler of a "
